@@ -391,14 +391,16 @@ def r2(fx):
         yield ob(f'validator of {p}: anchored at \\Z and cannot match CR/LF', rx.ends_with_string_end(tree) is True
                  and not rx.can_match_newline(tree), fx.forest.module_assign('helpers', rxname), where=f'helpers.{rxname}', got=patn,
                  want=r'^...\Z without any construct matching \r or \n')
-    j = [s for s in fn.body if isinstance(s, ast.Return)]
-    r = single(j, 'return of make_vcard_data')
-    bj = pat.match(r.value, "'\\r\\n'.join(H_d)")
-    dn = bj['d'].id if bj is not None and isinstance(bj['d'], ast.Name) else None
-    need(dn is not None, 'make_vcard_data: join of the line list')
-    yield ob('vCard lines are joined with CRLF, BEGIN first, END last', _list_head(fn, dn)[:2] == ['BEGIN:VCARD', 'VERSION:3.0']
-             and _appends(fn, dn)[-2:] == ["'END:VCARD'", "''"], r,
-             got=(ast.unparse(r.value), _list_head(fn, dn)[:2], _appends(fn, dn)[-2:]), want="'\\r\\n'.join(<lines>)")
+    it2 = Interp(max_steps=5_000_000)
+    try:
+        txt = make_callable(fx.forest, 'helpers', 'make_vcard_data', it2)('Doe;John', 'John Doe', email=('a@example.org', 'b@example.org'), city='Town')
+        lines = txt.split('\r\n') if isinstance(txt, str) else None
+    except PyRaise as ex:
+        txt, lines = f'raises {ex.name}', None
+    okl = lines is not None and lines[:2] == ['BEGIN:VCARD', 'VERSION:3.0'] and lines[-2:] == ['END:VCARD', ''] and not any('\n' in ln or '\r' in ln for ln in lines) \
+        and all(':' in ln for ln in lines[:-1])
+    yield ob('vCard lines are joined with CRLF, BEGIN first, END last', okl, fn, got=lines if lines is not None else txt,
+             want="BEGIN:VCARD, VERSION:3.0, <property lines>, END:VCARD, each ended by CRLF")
 
 
 def _list_head(fn, name):
